@@ -2043,6 +2043,8 @@ def concrete_method(interp, cx, fr, recv, name, args, kwargs):
             return None
         if name == "union":
             return recv | set(args[0])
+        if name in ("intersection", "difference") and len(args) == 1 and isinstance(args[0], (set, frozenset)) and not any(is_sym(x) for x in recv | set(args[0])):
+            return recv & args[0] if name == "intersection" else recv - args[0]
     if isinstance(recv, str):
         if name == "join" and len(args) == 1 and hasattr(args[0], "py_joined_by"):
             return args[0].py_joined_by(cx, recv)  # spec-level sequence of strings that knows its own join
